@@ -27,6 +27,21 @@ VERIF = os.path.dirname(os.path.dirname(os.path.abspath(__file__)))
 REPO = os.environ.get("VERIF_REPO", "/repo")
 WORK = os.path.join(VERIF, ".work")
 EXT = os.path.join(VERIF, "kani", "ext")
+ALT = os.path.realpath(REPO) != "/repo"
+if ALT:
+    # VERIF_REPO=<scratch copy of tokio-rs/bytes>: screening run against another tree (seeded changes) that leaves /repo, the evidence
+    # files and the build caches of the real run untouched: own work dir, own copy of the harness crate whose path dependency points there
+    REPO = os.path.realpath(REPO)
+    WORK = os.path.join(VERIF, ".work", "alt_" + hashlib.sha1(REPO.encode()).hexdigest()[:8])
+    _src = EXT
+    EXT = os.path.join(WORK, "ext")
+    os.makedirs(WORK, exist_ok=True)
+    if os.path.exists(EXT):
+        shutil.rmtree(EXT)
+    shutil.copytree(_src, EXT, ignore=shutil.ignore_patterns("target", "gen"))
+    _ct = open(os.path.join(EXT, "Cargo.toml")).read().replace('path = "/repo"', 'path = "%s"' % REPO)
+    open(os.path.join(EXT, "Cargo.toml"), "w").write(_ct)
+    shutil.copy(os.path.join(REPO, "Cargo.lock"), os.path.join(EXT, "Cargo.lock")) if not os.path.exists(os.path.join(EXT, "Cargo.lock")) else None
 INCRATE = os.path.join(VERIF, "kani", "incrate")
 BASE_RUSTFLAGS = "--cfg miri --cfg tokio_rs_bytes_verif"
 ZFLAGS = ["-Z", "unstable-options", "-Z", "stubbing", "-Z", "mem-predicates"]
